@@ -14,6 +14,7 @@ CHECKS = {
  "C04": ("GitAiCore with staging by file and by hunk and partial commits (index, paths): every partition within the bounds is explored; C02_Carried / C01_OnlyAdded / C03_Notes decide that carried lines are listed once, for the right session, in the commit that contains them", "DESIGN.md 5 C04"),
  "C05": ("C05_WellFormed is evaluated by TLC on every observed note after every step of behaviours mixing commit, partial commit, reset, stash and checkout, over six file-name families; the structural flags come from the harness's independent parser of the published note grammar", "DESIGN.md 5 C05"),
  "C06": ("twin execution against PLAIN git: every selected behaviour (porcelain incl. reset, stash, checkout, restore, mv, partial commits; rebase, cherry-pick, squash, amend; read-only, invalid, plumbing, global-option and alias command lines) runs in one repository through the proxy and in a second one with plain git under the same environment and dates; after every step the harness digests HEAD, refs outside the AI namespaces, index, status, work tree, stash, operation state and the exit status + stdout of every command; TLC evaluates C06_Same on the pair", "DESIGN.md 5 C06"),
+ "C07": ("spec/Proxy.tla: the wrapper's phases (pre-hook calls, spawn, post-hook calls, exit) under a fault grid; TLC enumerates scenario x fault position x kind x corruption and checks the two-outcomes property on the design; every grid point is executed on the real wrapper with a stand-in git (configured as git_path) that fails, or kills the wrapper at, the k-th internal git call, or after corrupting checkpoints.jsonl / INITIAL / rewrite_log; a plain-git twin gives the reference outcome; TLC validates the observed outcomes against C07_TwoOutcomes / C07_NextWorks", "DESIGN.md 5 C07"),
  "C08": ("behaviours over every note-writing command of the model (commit, partial commit, amend, rebase, cherry-pick, squash, reset+recommit, stash/pop+commit) are replayed under prompt-storage default / local / notes with a marker sentence and a credential-shaped token in every transcript; after each step every blob reachable from the notes ref and its remote-tracking copies (whole ref history) is scanned; TLC evaluates C08_NoTranscript / C08_Masked on the observed flags", "DESIGN.md 5 C08"),
  "C09": ("the harness records plain git blame --line-porcelain (originating commit, path and line there) next to git-ai blame --json; TLC evaluates C09_Overlay = overlay of the recorded git blame with the observed notes, and C09_Formats (porcelain / line-porcelain / incremental name git's commits; readable and JSON output agree under -L ranges); histories include renames (git mv), amend, rebase, cherry-pick, squash", "DESIGN.md 5 C09"),
  "C19": ("for every commit of every replayed history the harness logs git-ai stats --json and git's numstat; TLC evaluates the identities of C19_Stats, computing added / deleted / accepted lines itself from the recorded trees and observed notes", "DESIGN.md 5 C19"),
@@ -32,12 +33,14 @@ m = {
            "enable": "scripts/build.sh: RUSTFLAGS='--cfg git_ai_verif --check-cfg cfg(git_ai_verif)' cargo build --offline --features test-support --bin git-ai --target-dir /verif/harness/target/gitai",
            "baseline_off_cmd": "cd /repo && cargo nextest run --workspace --no-fail-fast --tool-config-file pb:/w/lib/nextest.toml --profile pb --test-threads 8 --offline",
            "source_commits": ["77aecccd", "4294eaf7"], "add_only": True},
- "engines": [{"name": "concurrency", "path": "spec/Concurrency.tla, harness/gaih/conc.py", "serves_properties": ["C11"],
+ "engines": [{"name": "proxy-faults", "path": "spec/Proxy.tla, harness/gaih/fault.py", "serves_properties": ["C07"],
+              "kind_free_text": "TLA+ model of the wrapper's control flow under a fault grid; fault injection through a stand-in git at the k-th internal call, kill, private-file corruption; plain-git twin; TLC trace validation of the observed outcomes"},
+             {"name": "concurrency", "path": "spec/Concurrency.tla, harness/gaih/conc.py", "serves_properties": ["C11"],
               "kind_free_text": "TLA+ model of the read/write steps of concurrent checkpoint processes; TLC enumerates interleavings; a controller drives real processes through sync points (hook H1); TLC trace validation"},
              {"name": "notes-sync", "path": "spec/NotesSync.tla, harness/gaih/sync.py", "serves_properties": ["C10"],
               "kind_free_text": "TLA+ model of notes synchronisation between clones and a remote; TLC enumerates all orderings; replay with real clones over a local bare remote; TLC trace validation"},
              {"name": "gitai-core", "path": "spec/GitAiCore.tla, spec/MC_Core.tla, harness/gaih",
-              "serves_properties": sorted(k for k in CHECKS if k not in ("C10", "C11")),
+              "serves_properties": sorted(k for k in CHECKS if k not in ("C10", "C11", "C07")),
               "kind_free_text": "explicit TLA+ model of git-ai in one clone (ground truth by line identity + mechanism transcribed from the code with named as-built deviations); TLC explores it exhaustively and emits replay scripts; a python driver runs them against the binary built from /repo and projects the real repository onto the model's variables; TLC validates the recorded traces, evaluating the property clauses on the observed states and reporting model drift"}],
  "checks": [],
  "not_applicable": [],
@@ -51,8 +54,9 @@ for p in props:
                             "thorough_cmd": "scripts/check %s thorough" % pid,
                             "evidence_file": "evidence/%s.json" % pid,
                             "replay_cmd_template": "scripts/check --replay {path}",
-                            "engine": {"C10": "notes-sync", "C11": "concurrency"}.get(pid, "gitai-core"),
-                            "level_claimed": {"category": "model_checking", "text": text, "design_ref": ref},
+                            "engine": {"C10": "notes-sync", "C11": "concurrency", "C07": "proxy-faults"}.get(pid, "gitai-core"),
+                            "level_claimed": {"category": "fault_enumeration" if pid == "C07" else "model_checking",
+                                              "text": text, "design_ref": ref},
                             "level_note": CORE_NOTE, "technique": TECH})
     else:
         m["not_applicable"].append({"property_id": pid, "reason": REASON_TODO})
